@@ -11,7 +11,7 @@ use serde_json::json;
 
 pub fn run(ctx: &Ctx) -> i32 {
     let mon = Mon::new();
-    let n = ctx.tier.pick(1600, 6400);
+    let n = ctx.tier.pick(1600, 3200);
     par_cases(ctx, &mon, "hist", n, |cc, rng, l| {
         let case = HistCase::random(rng, ctx.tier.pick(12, 40), ctx.tier.pick(12, 40), 8, false);
         let every_epoch = rng.chance(1, 3);
